@@ -62,21 +62,95 @@ def loop():
     return _loop
 
 
+_DUMMY = None
+
+
+def _dummy_frame():
+    """A small request frame used to put the transmitter into its ACK wait."""
+    import zigpy_zboss.commands as c
+    return c.NcpConfig.GetModuleVersion.Req(TSN=1).to_frame()
+
+
+def _ack_bytes(seq):
+    import streams
+    return streams.ack(seq)
+
+
 def make(seq=0, transport=True, has_event=False, raise_at=()):
+    """A protocol object in the given link state, reached through public entry points only:
+    the sequence number by feeding the matching acknowledgements, the transport by `connection_made`
+    (and `close` for "gone again"), a pending ACK wait by a real `send` task left waiting."""
     from zigpy_zboss import uart
     import zigpy_zboss.config as conf
     cfg = {conf.CONF_DEVICE_PATH: "/dev/null", conf.CONF_DEVICE_BAUDRATE: 115200, conf.CONF_DEVICE_FLOW_CONTROL: None}
     log = []
+    api = ApiStub(log, ())
+    lp = loop()
 
     async def mk():
-        p = uart.ZbossNcpProtocol(cfg, ApiStub(log, raise_at))
-        if has_event:
-            p._ack_received_event = asyncio.Event()
-        return p
-    p = loop().run_until_complete(mk())
-    p._pack_seq = seq
-    p._transport = RecTransport(log) if transport else None
+        return uart.ZbossNcpProtocol(cfg, api)
+    p = lp.run_until_complete(mk())
+    task = None
+    mode = int(has_event)          # 0 none, 1 send waiting for its ACK, 2 send ended by its ACK, 3 send ended by expiry
+    if mode == 2 and (seq == 0 or not transport):
+        mode = 1
+    if mode == 3 and not transport:
+        mode = 1
+    p._verif_mode = mode
+    if not transport and mode and seq != 0:
+        # not reachable without also setting the event (close() resets the numbering): legacy path
+        p._ack_received_event = lp.run_until_complete(_mk_event())
+        p._pack_seq = seq
+    else:
+        target = seq
+        if mode == 2:
+            target = {1: 0, 2: 1, 3: 2}[seq]     # the send's own ACK will advance the number to `seq`
+        cur = 0
+        for _ in range(target):                   # 0 -> 1 -> 2 -> 3 by matching ACKs (no send is waiting yet)
+            p.data_received(_ack_bytes(cur))
+            cur = cur % 3 + 1
+        if transport or mode:
+            p.connection_made(RecTransport(log))
+        if mode:
+            old_to = getattr(uart, "ACK_TIMEOUT", None)
+            if mode == 3:
+                if old_to is None:
+                    mode = 1
+                else:
+                    uart.ACK_TIMEOUT = 0.005
+
+            async def start():
+                t = asyncio.ensure_future(p.send(_dummy_frame()))
+                for _ in range(5):
+                    await asyncio.sleep(0)
+                if mode == 2:
+                    p.data_received(_ack_bytes(cur))
+                    await t
+                    return None
+                if mode == 3:
+                    await asyncio.wait_for(t, 2)
+                    return None
+                return t
+            try:
+                task = lp.run_until_complete(start())
+            finally:
+                if old_to is not None:
+                    uart.ACK_TIMEOUT = old_to
+        if not transport and mode:
+            p.close()
+    del log[:]
+    api.raise_at = set(raise_at)
+    api.n = 0
+    p._verif_task = task
     return p, log
+
+
+async def _mk_event():
+    return asyncio.Event()
+
+
+def _peek(p, name, default=None):
+    return getattr(p, name, default)
 
 
 def session(chunks, seq=0, transport=True, has_event=False, raise_at=()):
@@ -92,11 +166,41 @@ def session(chunks, seq=0, transport=True, has_event=False, raise_at=()):
             raised = type(ex).__name__
             log.append("RAISED:" + raised)
         outs.append(",".join(log[mark:]) if len(log) > mark else ".")
-    ev = p._ack_received_event
-    final = "seq=%d ack=%d ev=%d buf=%s" % (p._pack_seq, p._ack_seq, 1 if (ev is not None and ev.is_set()) else 0,
-                                          hx(bytes(p._buffer)))
+    # private fields are read for a tighter comparison when they exist; a refactor that renames them only
+    # loosens the comparison ("?" components are masked on the model side as well)
+    ev = _peek(p, "_ack_received_event", "?")
+    ps, aseq, buf = _peek(p, "_pack_seq", "?"), _peek(p, "_ack_seq", "?"), _peek(p, "_buffer", "?")
+    final = "seq=%s ack=%s ev=%s buf=%s" % (
+        ps, aseq, "?" if ev == "?" else (1 if (ev is not None and ev.is_set()) else 0),
+        "?" if buf == "?" else hx(bytes(buf)))
+    t = getattr(p, "_verif_task", None)
+    if t is not None:
+        t.cancel()
+        try:
+            loop().run_until_complete(t)
+        except BaseException:
+            pass
     return outs, final, raised
 
 
+def mask_like(model_line, impl_line):
+    """Mask in the model's answer the state components the implementation no longer exposes."""
+    if "?" not in impl_line.split(" | ")[-1]:
+        return model_line
+    try:
+        head, tail = model_line.rsplit(" | ", 1)
+        itail = impl_line.rsplit(" | ", 1)[1]
+        out = []
+        for m, i in zip(tail.split(" "), itail.split(" ")):
+            out.append(i if i.endswith("=?") else m)
+        return head + " | " + " ".join(out)
+    except Exception:
+        return model_line
+
+
 def rx_line(chunks, seq=0, transport=True, has_event=False):
-    return "rx %d %d %d %s" % (seq, int(transport), int(has_event), " ".join(hx(c) for c in chunks))
+    mode = int(has_event)
+    if mode == 2 and (seq == 0 or not transport):
+        mode = 1
+    ev = {0: 0, 1: 1, 2: 2, 3: 1}[mode]
+    return "rx %d %d %d %s" % (seq, int(transport), ev, " ".join(hx(c) for c in chunks))
